@@ -12,8 +12,10 @@ import LispModel.Read
 import LispModel.Eval
 import LispModel.Proofs.ReaderParse
 import LispModel.Proofs.Layout
+import LispModel.Proofs.EvalErase
 namespace LispModel.Proofs.Positions
 open LispModel LispModel.Read LispModel.Scan LispModel.Proofs.Reader
+open LispModel.Proofs.EvalErase
 
 /-! ### "every cursor of a value satisfies `P`" -/
 
@@ -489,5 +491,803 @@ theorem bracketed_rows {cfg : Cfg} {f : Nat} {t : Token} {ts rest : List Token} 
       · simp at hb; subst hb; exact Nat.le_refl _
   intro a ha b hb
   exact ⟨Int.ofNat_le.2 (lo a ha), Int.ofNat_le.2 (hi b hb)⟩
+
+/-! ### the evaluator: positions of errors come from cursors of the program -/
+
+theorem newLispError_keeps_first_position (pl : Val) (q : Pos) (c : Val) :
+    newLispError (.lisp pl (some q)) c = .lisp pl (some q) := rfl
+
+/-- the position of an error (a plain Go error has none) -/
+def errPos : Err → Option Pos
+  | .lisp _ p => p
+  | .plain _ => none
+
+/-- `NewLispError` never invents a position: the error keeps the one it has, else it gets the cursor of
+    the carrier -/
+theorem newLispError_position (e : Err) (c : Val) :
+    errPos (newLispError e c) = firstPos (errPos e) (getPosition c) := by
+  cases e with
+  | plain m => rfl
+  | lisp pl pos => cases pos <;> rfl
+
+set_option linter.unusedSectionVars false
+
+/-! #### `AllPos P` as a fixed point of a cursor map -/
+
+section fixed
+variable {P : Pos → Prop} {g : Option Pos → Option Pos} (hgo : ∀ o, OptAll P o ↔ g o = o)
+include hgo
+
+theorem list_map_eq_self {α} (f : α → α) (l : List α) : l.map f = l ↔ ∀ x ∈ l, f x = x := by
+  induction l with
+  | nil => simp
+  | cons a l ih => simp [ih]
+
+mutual
+theorem allPos_iff_fixed : ∀ v : Val, AllPos P v ↔ mapPos g v = v
+  | .sym s p => by simp only [AllPos, mapPos, hgo p, Val.sym.injEq, true_and]
+  | .list xs p => by
+    simp only [AllPos, mapPos, hgo p, allPosList_iff_fixed xs, Val.list.injEq]; exact And.comm
+  | .vec xs p => by
+    simp only [AllPos, mapPos, hgo p, allPosList_iff_fixed xs, Val.vec.injEq]; exact And.comm
+  | .map m => by simp only [AllPos, mapPos, allPosMap_iff_fixed m, Val.map.injEq]
+  | .fn ps b e m p => by
+    simp only [AllPos, mapPos, hgo p, allPos_iff_fixed ps, allPos_iff_fixed b, Val.fn.injEq, true_and]
+    constructor
+    · rintro ⟨a, b, c⟩; exact ⟨b, c, a⟩
+    · rintro ⟨b, c, a⟩; exact ⟨a, b, c⟩
+  | .nil => by simp [AllPos, mapPos]
+  | .bool _ => by simp [AllPos, mapPos]
+  | .int _ => by simp [AllPos, mapPos]
+  | .str _ => by simp [AllPos, mapPos]
+  | .set _ => by simp [AllPos, mapPos]
+  | .builtin _ => by simp [AllPos, mapPos]
+  | .atom _ => by simp [AllPos, mapPos]
+  | .future _ => by simp [AllPos, mapPos]
+  | .goerr _ => by simp [AllPos, mapPos]
+  | .opaque _ => by simp [AllPos, mapPos]
+theorem allPosList_iff_fixed : ∀ xs : List Val, AllPosList P xs ↔ mapPosList g xs = xs
+  | [] => by simp [AllPosList, mapPosList]
+  | x :: xs => by
+    simp only [AllPosList, mapPosList, allPos_iff_fixed x, allPosList_iff_fixed xs, List.cons.injEq]
+theorem allPosMap_iff_fixed : ∀ m : List (String × Val), AllPosMap P m ↔ mapPosMap g m = m
+  | [] => by simp [AllPosMap, mapPosMap]
+  | (k, v) :: m => by
+    simp only [AllPosMap, mapPosMap, allPos_iff_fixed v, allPosMap_iff_fixed m, List.cons.injEq,
+      Prod.mk.injEq, true_and]
+end
+
+theorem array_map_eq_self {α} (f : α → α) (a : Array α) : a.map f = a ↔ ∀ x ∈ a.toList, f x = x := by
+  rw [← list_map_eq_self hgo, ← Array.toList_map]
+  constructor
+  · intro h; rw [h]
+  · intro h; exact Array.ext' h
+
+/-- every cursor occurring anywhere in the state (scopes, atoms, the trace, the forms the debugger saw)
+    satisfies `P` -/
+structure StAll (P : Pos → Prop) (st : State) : Prop where
+  scopes : ∀ sc ∈ st.scopes.toList, AllPosMap P sc.data
+  atoms : ∀ v ∈ st.atoms.toList, AllPos P v
+  trace : AllPosList P st.trace
+  calls : ∀ sp, st.stepper = some sp → AllPosList P sp.calls
+
+theorem stAll_iff_fixed (st : State) : StAll P st ↔ mapSt g st = st := by
+  have hsc : ∀ sc : Scope, AllPosMap P sc.data ↔ mapScope g sc = sc := by
+    intro sc
+    rw [allPosMap_iff_fixed hgo]
+    cases sc with
+    | mk data outer => simp [mapScope]
+  have hsp : (∀ sp, st.stepper = some sp → AllPosList P sp.calls) ↔
+      st.stepper.map (mapStepper g) = st.stepper := by
+    cases st.stepper with
+    | none => simp
+    | some sp =>
+      simp only [Option.some.injEq, forall_eq', Option.map_some, allPosList_iff_fixed hgo]
+      cases sp with
+      | mk script skip o1 o2 calls => simp [mapStepper]
+  constructor
+  · intro h
+    cases st with
+    | mk scopes atoms trace marks ticks cancelAt stepper =>
+      simp only [mapSt, State.mk.injEq, and_true, true_and]
+      refine ⟨(array_map_eq_self hgo _ _).2 (fun sc hsc' => (hsc sc).1 (h.scopes sc hsc')),
+        (array_map_eq_self hgo _ _).2 (fun v hv => (allPos_iff_fixed hgo v).1 (h.atoms v hv)),
+        (allPosList_iff_fixed hgo _).1 h.trace, hsp.1 h.calls⟩
+  · intro h
+    cases st with
+    | mk scopes atoms trace marks ticks cancelAt stepper =>
+      simp only [mapSt, State.mk.injEq, and_true, true_and] at h
+      obtain ⟨h1, h2, h3, h4⟩ := h
+      exact ⟨fun sc hsc' => (hsc sc).2 ((array_map_eq_self hgo _ _).1 h1 sc hsc'),
+        fun v hv => (allPos_iff_fixed hgo v).2 ((array_map_eq_self hgo _ _).1 h2 v hv),
+        (allPosList_iff_fixed hgo _).2 h3, hsp.2 h4⟩
+
+/-- payload and position of the error satisfy `P` -/
+def ErrAll (P : Pos → Prop) : Err → Prop
+  | .lisp pl pos => AllPos P pl ∧ OptAll P pos
+  | .plain _ => True
+
+theorem errAll_iff_fixed (e : Err) : ErrAll P e ↔ mapErr g e = e := by
+  cases e with
+  | plain m => simp [ErrAll, mapErr]
+  | lisp pl pos => simp only [ErrAll, mapErr, allPos_iff_fixed hgo, hgo pos, Err.lisp.injEq]
+
+end fixed
+
+/-! #### the cursor map whose fixed points are the values with all cursors in `P` -/
+
+open Classical in
+/-- relabel every cursor outside `P` to a fixed cursor inside `P`; erase all cursors when `P` is empty -/
+noncomputable def gOf (P : Pos → Prop) : Option Pos → Option Pos :=
+  if h : ∃ p0, P p0 then Option.map (fun p => if P p then p else choose h) else fun _ => none
+
+theorem gOf_posMap (P : Pos → Prop) : PosMap (gOf P) := by
+  unfold gOf
+  split
+  · exact posMap_map _
+  · exact posMap_erase
+
+theorem gOf_fixed (P : Pos → Prop) (o : Option Pos) : OptAll P o ↔ gOf P o = o := by
+  unfold gOf
+  split
+  · rename_i h
+    cases o with
+    | none => simp [OptAll]
+    | some p =>
+      simp only [optAll_some, Option.map_some, Option.some.injEq]
+      constructor
+      · intro hp; rw [if_pos hp]
+      · intro e
+        by_cases hp : P p
+        · exact hp
+        · rw [if_neg hp] at e; rw [← e]; exact Classical.choose_spec h
+  · rename_i h
+    cases o with
+    | none => simp [OptAll]
+    | some p =>
+      simp only [optAll_some]
+      constructor
+      · intro hp; exact absurd ⟨p, hp⟩ h
+      · intro e; cases e
+
+/-- what a result may contain -/
+def ResAll {α} (Q : α → Prop) (P : Pos → Prop) : Res α → Prop
+  | .ok a => Q a
+  | .err e => ErrAll P e
+  | .oof => True
+
+section inv
+variable {P : Pos → Prop}
+
+theorem resAll_of_fixed {α} {Q : α → Prop} {f : α → α} (hq : ∀ a, Q a ↔ f a = a) {r : Res α}
+    (h : mapRes f (gOf P) r = r) : ResAll Q P r := by
+  cases r with
+  | ok a => simp only [mapRes, Res.ok.injEq] at h; exact (hq a).2 h
+  | err e => simp only [mapRes, Res.err.injEq] at h; exact (errAll_iff_fixed (gOf_fixed P) e).2 h
+  | oof => trivial
+
+theorem inv_of_fixedR {r : R} (h : mapR (gOf P) r = r) : ResAll (AllPos P) P r.1 ∧ StAll P r.2 := by
+  obtain ⟨r1, s1⟩ := r
+  simp only [mapR, Prod.mk.injEq] at h
+  exact ⟨resAll_of_fixed (allPos_iff_fixed (gOf_fixed P)) h.1, (stAll_iff_fixed (gOf_fixed P) s1).2 h.2⟩
+
+theorem inv_of_fixedRL {r : Res (List Val) × State} (h : mapRL (gOf P) r = r) :
+    ResAll (AllPosList P) P r.1 ∧ StAll P r.2 := by
+  obtain ⟨r1, s1⟩ := r
+  simp only [mapRL, Prod.mk.injEq] at h
+  exact ⟨resAll_of_fixed (allPosList_iff_fixed (gOf_fixed P)) h.1, (stAll_iff_fixed (gOf_fixed P) s1).2 h.2⟩
+
+/-- **`error_positions_come_from_the_ast`**, for the entry points of the block: when every cursor of the
+    state and of the program satisfies `P`, so does every cursor of the value or error returned (payload
+    and position) and of the resulting state -/
+theorem eval_allPos (F : Nat) {st : State} (env : Nat) {ast : Val} (d : Nat)
+    (hst : StAll P st) (hast : AllPos P ast) :
+    ResAll (AllPos P) P (eval F st env ast d).1 ∧ StAll P (eval F st env ast d).2 := by
+  have h := (comm (gOf_posMap P) F).eval st env ast d
+  rw [(stAll_iff_fixed (gOf_fixed P) st).1 hst, (allPos_iff_fixed (gOf_fixed P) ast).1 hast] at h
+  exact inv_of_fixedR h.symm
+
+theorem evalLoop_allPos (F : Nat) {st : State} (env : Nat) {ast : Val} (d : Nat)
+    (hst : StAll P st) (hast : AllPos P ast) :
+    ResAll (AllPos P) P (evalLoop F st env ast d).1 ∧ StAll P (evalLoop F st env ast d).2 := by
+  have h := (comm (gOf_posMap P) F).evalLoop st env ast d
+  rw [(stAll_iff_fixed (gOf_fixed P) st).1 hst, (allPos_iff_fixed (gOf_fixed P) ast).1 hast] at h
+  exact inv_of_fixedR h.symm
+
+theorem apply_allPos (F : Nat) {st : State} {f : Val} {args : List Val} (d : Nat)
+    (hst : StAll P st) (hf : AllPos P f) (hargs : AllPosList P args) :
+    ResAll (AllPos P) P (apply F st f args d).1 ∧ StAll P (apply F st f args d).2 := by
+  have h := (comm (gOf_posMap P) F).apply st f args d
+  rw [(stAll_iff_fixed (gOf_fixed P) st).1 hst, (allPos_iff_fixed (gOf_fixed P) f).1 hf,
+    (allPosList_iff_fixed (gOf_fixed P) args).1 hargs] at h
+  exact inv_of_fixedR h.symm
+
+theorem evalList_allPos (F : Nat) {st : State} (env : Nat) {xs : List Val} (d : Nat)
+    (hst : StAll P st) (hxs : AllPosList P xs) :
+    ResAll (AllPosList P) P (evalList F st env xs d).1 ∧ StAll P (evalList F st env xs d).2 := by
+  have h := (comm (gOf_posMap P) F).evalList st env xs d
+  rw [(stAll_iff_fixed (gOf_fixed P) st).1 hst, (allPosList_iff_fixed (gOf_fixed P) xs).1 hxs] at h
+  exact inv_of_fixedRL h.symm
+
+theorem callBuiltin_allPos (F : Nat) {st : State} (name : String) {args : List Val} (d : Nat)
+    (hst : StAll P st) (hargs : AllPosList P args) :
+    ResAll (AllPos P) P (callBuiltin F st name args d).1 ∧ StAll P (callBuiltin F st name args d).2 := by
+  have h := (comm (gOf_posMap P) F).callBuiltin st name args d
+  rw [(stAll_iff_fixed (gOf_fixed P) st).1 hst, (allPosList_iff_fixed (gOf_fixed P) args).1 hargs] at h
+  exact inv_of_fixedR h.symm
+
+end inv
+
+/-! #### programs: top-level forms fed one by one to `EVAL` -/
+
+/-- the position lies in module `m` between rows `lo` and `hi` -/
+def InRows (m : String) (lo hi : Int) (p : Pos) : Prop := p.module = some m ∧ lo ≤ p.beginRow ∧ p.row ≤ hi
+
+/-- feed the top-level forms one by one to `EVAL` in scope `env` (REPL, `load-file`): stop at the first
+    error and report the failing form -/
+def runForms (F : Nat) (env : Nat) : State → List Val → Option (Val × Err) × State
+  | st, [] => (none, st)
+  | st, T :: rest =>
+    match eval F st env T 0 with
+    | (.ok _, st') => runForms F env st' rest
+    | (.err e, st') => (some (T, e), st')
+    | (.oof, st') => (none, st')
+
+theorem stAll_mono {P Q : Pos → Prop} (h : ∀ p, P p → Q p) {st : State} (hs : StAll P st) : StAll Q st :=
+  ⟨fun sc hsc => allPosMap_mono h _ (hs.scopes sc hsc), fun v hv => allPos_mono h _ (hs.atoms v hv),
+    allPosList_mono h _ hs.trace, fun sp hsp => allPosList_mono h _ (hs.calls sp hsp)⟩
+
+/-- the start-up state carries no cursor at all -/
+theorem initState_no_cursors : StAll (fun _ => False) initState := by
+  refine ⟨?_, ?_, trivial, ?_⟩
+  · intro sc hsc
+    simp only [initState, List.mem_singleton] at hsc
+    subst hsc
+    rw [allPosMap_iff]
+    intro kv hkv
+    simp only [List.mem_map] at hkv
+    obtain ⟨n, _, rfl⟩ := hkv
+    trivial
+  · intro v hv; simp [initState] at hv
+  · intro sp hsp; simp [initState] at hsp
+
+/-- a runtime error raised while the top-level forms are fed one by one carries — if any — a position
+    that is a cursor of the failing form, of one of the forms evaluated before it, or of the store the
+    program started from -/
+theorem runForms_error_position (Rw : Val → Pos → Prop) (F env : Nat) :
+    ∀ (forms : List Val) (Q : Pos → Prop) (st : State), StAll Q st → (∀ T ∈ forms, AllPos (Rw T) T) →
+    ∀ T pl q st', runForms F env st forms = (some (T, .lisp pl (some q)), st') →
+      ∃ pre post, forms = pre ++ T :: post ∧ (Q q ∨ ∃ T' ∈ pre ++ [T], Rw T' q) := by
+  intro forms
+  induction forms with
+  | nil => intro Q st _ _ T pl q st' h; simp [runForms] at h
+  | cons T0 rest ih =>
+    intro Q st hst hf T pl q st' h
+    have hinv := eval_allPos (P := fun p => Q p ∨ Rw T0 p) F env 0
+      (stAll_mono (fun p hp => Or.inl hp) hst)
+      (allPos_mono (fun p hp => Or.inr hp) _ (hf T0 (List.mem_cons_self ..)))
+    rw [runForms] at h
+    rcases he : eval F st env T0 0 with ⟨r, s1⟩
+    rw [he] at h hinv
+    cases r with
+    | ok v =>
+      simp only [] at h
+      obtain ⟨pre, post, hfm, hq⟩ := ih _ s1 hinv.2 (fun T hT => hf T (List.mem_cons_of_mem _ hT)) T pl q st' h
+      refine ⟨T0 :: pre, post, by rw [hfm]; rfl, ?_⟩
+      rcases hq with (hq | hq) | ⟨T', hT', hq⟩
+      · exact .inl hq
+      · exact .inr ⟨T0, List.mem_cons_self .., hq⟩
+      · exact .inr ⟨T', List.mem_cons_of_mem _ hT', hq⟩
+    | err e =>
+      simp only [Prod.mk.injEq, Option.some.injEq] at h
+      obtain ⟨⟨rfl, rfl⟩, rfl⟩ := h
+      refine ⟨[], rest, rfl, ?_⟩
+      have := hinv.1
+      simp only [ResAll, ErrAll, optAll_some] at this
+      rcases this.2 with hq | hq
+      · exact .inl hq
+      · exact .inr ⟨T0, List.mem_cons_self .., hq⟩
+    | oof => simp at h
+
+/-! ### the module name only changes cursors (property C19: "with or without a module name") -/
+
+/-- outcomes of the reader that differ only in cursors -/
+def ExEq {α} (eqv : α → α → Prop) : Except RErr α → Except RErr α → Prop
+  | .ok a, .ok b => eqv a b
+  | .error e, .error e' => e = e'
+  | _, _ => False
+
+/-- lists that differ only in cursors -/
+def ListEq (xs ys : List Val) : Prop := mapPosList (fun _ => none) xs = mapPosList (fun _ => none) ys
+
+theorem listEq_nil : ListEq [] [] := rfl
+theorem listEq_cons {x y : Val} {xs ys : List Val} (h : ValEq x y) (hs : ListEq xs ys) : ListEq (x :: xs) (y :: ys) := by
+  unfold ListEq; simp only [mapPosList]; rw [show mapPos _ x = mapPos _ y from h, show mapPosList _ xs = _ from hs]
+theorem listEq_cons_inv {x y : Val} {xs ys : List Val} (h : ListEq (x :: xs) (y :: ys)) : ValEq x y ∧ ListEq xs ys := by
+  unfold ListEq at h; simp only [mapPosList, List.cons.injEq] at h; exact h
+theorem listEq_length {xs ys : List Val} (h : ListEq xs ys) : xs.length = ys.length := by
+  have := congrArg List.length h; simpa using this
+theorem listEq_reverse {xs ys : List Val} (h : ListEq xs ys) : ListEq xs.reverse ys.reverse := by
+  unfold ListEq at h ⊢; rw [mapPosList_eq, mapPosList_eq] at h ⊢; simp [List.map_reverse, h]
+
+theorem valEq_str_left {k : String} {y : Val} (h : ValEq (.str k) y) : y = .str k := by
+  unfold ValEq erasePos at h; cases y <;> simp [mapPos] at h; rw [h]
+theorem valEq_not_str {x y : Val} (h : ValEq x y) (hx : ∀ k, x ≠ .str k) : ∀ k, y ≠ .str k := by
+  intro k hy; subst hy
+  unfold ValEq erasePos at h; cases x <;> simp [mapPos] at h
+  exact hx _ (by rw [h])
+
+theorem newHashMapLoop_eq : ∀ (xs ys : List Val) (m m' : List (String × Val)),
+    ListEq xs ys → mapPosMap (fun _ => none) m = mapPosMap (fun _ => none) m' →
+    ExEq (fun a b => mapPosMap (fun _ => none) a = mapPosMap (fun _ => none) b)
+      (Read.newHashMapLoop xs m) (Read.newHashMapLoop ys m')
+  | [], ys, m, m', h, hm => by
+    cases ys with
+    | nil => exact hm
+    | cons y ys => exact absurd (listEq_length h) (by simp)
+  | [x], ys, m, m', h, hm => by
+    match ys, h with
+    | [y], h =>
+      have hv := (listEq_cons_inv h).1
+      cases x <;> cases y <;> first | rfl | (exfalso; unfold ValEq erasePos at hv; simp [mapPos] at hv; done)
+    | [], h => exact absurd (listEq_length h) (by simp)
+    | _ :: _ :: _, h => exact absurd (listEq_length h) (by simp)
+  | a :: v :: r, ys, m, m', h, hm => by
+    match ys, h with
+    | [], h => exact absurd (listEq_length h) (by simp)
+    | [_], h => exact absurd (listEq_length h) (by simp)
+    | b :: w :: r', h =>
+      obtain ⟨hab, h2⟩ := listEq_cons_inv h
+      obtain ⟨hvw, hr⟩ := listEq_cons_inv h2
+      by_cases hk : ∃ k, a = .str k
+      · obtain ⟨k, rfl⟩ := hk
+        rw [valEq_str_left hab]
+        simp only [Read.newHashMapLoop]
+        refine newHashMapLoop_eq r r' _ _ hr ?_
+        rw [← ainsert_map, ← ainsert_map, hm, show mapPos _ v = mapPos _ w from hvw]
+      · have ha : ∀ k, a ≠ .str k := fun k e => hk ⟨k, e⟩
+        have hb := valEq_not_str hab ha
+        have e1 : Read.newHashMapLoop (a :: v :: r) m = .error .badkey := by
+          cases a <;> first | rfl | exact absurd rfl (ha _)
+        have e2 : Read.newHashMapLoop (b :: w :: r') m' = .error .badkey := by
+          cases b <;> first | rfl | exact absurd rfl (hb _)
+        rw [e1, e2]; rfl
+
+theorem newSet_eq : ∀ (xs ys : List Val) (s : List String), ListEq xs ys →
+    ExEq (fun a b => a = b) (Read.newSet xs s) (Read.newSet ys s)
+  | [], ys, s, h => by
+    cases ys with
+    | nil => rfl
+    | cons y ys => exact absurd (listEq_length h) (by simp)
+  | a :: r, ys, s, h => by
+    match ys, h with
+    | [], h => exact absurd (listEq_length h) (by simp)
+    | b :: r', h =>
+      obtain ⟨hab, hr⟩ := listEq_cons_inv h
+      by_cases hk : ∃ k, a = .str k
+      · obtain ⟨k, rfl⟩ := hk
+        rw [valEq_str_left hab]
+        simp only [Read.newSet]
+        exact newSet_eq r r' _ hr
+      · have ha : ∀ k, a ≠ .str k := fun k e => hk ⟨k, e⟩
+        have hb := valEq_not_str hab ha
+        have e1 : Read.newSet (a :: r) s = .error .badsetitem := by
+          cases a <;> first | rfl | exact absurd rfl (ha _)
+        have e2 : Read.newSet (b :: r') s = .error .badsetitem := by
+          cases b <;> first | rfl | exact absurd rfl (hb _)
+        rw [e1, e2]; rfl
+
+theorem externCall_eq (name : String) {args args' : List Val} (h : ListEq args args') :
+    ExEq ValEq (externCall name args) (externCall name args') := by
+  unfold externCall
+  rw [listEq_length h]
+  split
+  · split <;> rfl
+  · split
+    · match args, args', h with
+      | [], [], _ => rfl
+      | [], _ :: _, h => exact absurd (listEq_length h) (by simp)
+      | _ :: _, [], h => exact absurd (listEq_length h) (by simp)
+      | [a], [b], h =>
+        have hab := (listEq_cons_inv h).1
+        by_cases hk : ∃ k, a = .str k
+        · obtain ⟨k, rfl⟩ := hk
+          rw [valEq_str_left hab]
+          simp only []
+          split <;> rfl
+        · have ha : ∀ k, a ≠ .str k := fun k e => hk ⟨k, e⟩
+          have hb := valEq_not_str hab ha
+          cases a <;> first | exact absurd rfl (ha _) | skip
+          all_goals (cases b <;> first | exact absurd rfl (hb _) | rfl)
+      | [_], _ :: _ :: _, h => exact absurd (listEq_length h) (by simp)
+      | _ :: _ :: _, [_], h => exact absurd (listEq_length h) (by simp)
+      | a :: _ :: _, b :: _ :: _, h =>
+        cases a <;> cases b <;> rfl
+    · rfl
+
+theorem valEq_refl (v : Val) : ValEq v v := rfl
+theorem valEq_sym' (s : String) (p q : Option Pos) : ValEq (.sym s p) (.sym s q) := rfl
+theorem valEq_list {xs ys : List Val} (p q : Option Pos) (h : ListEq xs ys) : ValEq (.list xs p) (.list ys q) := by
+  unfold ValEq erasePos; simp only [mapPos]; rw [show mapPosList _ xs = _ from h]
+theorem valEq_vec {xs ys : List Val} (p q : Option Pos) (h : ListEq xs ys) : ValEq (.vec xs p) (.vec ys q) := by
+  unfold ValEq erasePos; simp only [mapPos]; rw [show mapPosList _ xs = _ from h]
+
+theorem readAtom_eq (cfg cfg' : Cfg) (t : Token) : ExEq ValEq (readAtom cfg t) (readAtom cfg' t) := by
+  unfold readAtom
+  simp only []
+  split
+  · split <;> rfl
+  · split <;> rfl
+  · split
+    · rfl
+    · split <;> rfl
+  · rfl
+  · split <;> rfl
+  · split
+    · rfl
+    · split
+      · rfl
+      · split <;> rfl
+  · rfl
+
+/-- the two classifications of a token under configurations that differ only in the module name -/
+inductive ShapeEq : Shape → Shape → Prop
+  | rmacro (n : String) : ShapeEq (.rmacro n) (.rmacro n)
+  | wmeta : ShapeEq .wmeta .wmeta
+  | closer (s : String) : ShapeEq (.closer s) (.closer s)
+  | opn (c : String) {k k' : List Val → Token → Except RErr Val} :
+      (∀ xs xs' close, ListEq xs xs' → ExEq ValEq (k xs close) (k' xs' close)) → ShapeEq (.opn c k) (.opn c k')
+  | leaf {r r' : Except RErr Val} : ExEq ValEq r r' → ShapeEq (.leaf r) (.leaf r')
+
+theorem shape_eq (cfg cfg' : Cfg) (hphs : cfg.phs = cfg'.phs) (henv : cfg.hasEnv = cfg'.hasEnv) (t : Token) :
+    ShapeEq (shape cfg t) (shape cfg' t) := by
+  unfold shape
+  simp only []
+  cases hL : List.lookup (tokStr t) readerMacros with
+  | some name => exact .rmacro name
+  | none =>
+    simp only []
+    by_cases h1 : tokStr t = "^"
+    · rw [if_pos h1, if_pos h1]; exact .wmeta
+    rw [if_neg h1, if_neg h1]
+    by_cases h2 : tokStr t = ")"
+    · rw [if_pos h2, if_pos h2]; exact .closer _
+    rw [if_neg h2, if_neg h2]
+    by_cases h3 : tokStr t = "]"
+    · rw [if_pos h3, if_pos h3]; exact .closer _
+    rw [if_neg h3, if_neg h3]
+    by_cases h4 : tokStr t = "}"
+    · rw [if_pos h4, if_pos h4]; exact .closer _
+    rw [if_neg h4, if_neg h4]
+    by_cases h5 : tokStr t = "("
+    · rw [if_pos h5, if_pos h5]
+      exact .opn _ (fun xs xs' close h => valEq_list _ _ h)
+    rw [if_neg h5, if_neg h5]
+    by_cases h6 : tokStr t = "["
+    · rw [if_pos h6, if_pos h6]
+      exact .opn _ (fun xs xs' close h => valEq_vec _ _ h)
+    rw [if_neg h6, if_neg h6]
+    by_cases h7 : tokStr t = "{"
+    · rw [if_pos h7, if_pos h7]
+      refine .opn _ (fun xs xs' close h => ?_)
+      simp only [Read.newHashMap]
+      rw [listEq_length h]
+      by_cases hodd : xs'.length % 2 = 1
+      · rw [if_pos hodd, if_pos hodd]; rfl
+      · rw [if_neg hodd, if_neg hodd]
+        have := newHashMapLoop_eq xs xs' [] [] h rfl
+        cases h1 : Read.newHashMapLoop xs [] <;> cases h2 : Read.newHashMapLoop xs' [] <;>
+          rw [h1, h2] at this <;> first | exact this.elim | skip
+        · exact this
+        · show ValEq (.map _) (.map _)
+          unfold ValEq erasePos; simp only [mapPos]; rw [show mapPosMap _ _ = _ from this]
+    rw [if_neg h7, if_neg h7]
+    by_cases h8 : tokStr t = "#{"
+    · rw [if_pos h8, if_pos h8]
+      refine .opn _ (fun xs xs' close h => ?_)
+      have := newSet_eq xs xs' [] h
+      cases h1 : Read.newSet xs [] <;> cases h2 : Read.newSet xs' [] <;>
+        rw [h1, h2] at this <;> first | exact this.elim | skip
+      · exact this
+      · show ValEq (.set _) (.set _)
+        rw [show _ = _ from this]; rfl
+    rw [if_neg h8, if_neg h8]
+    by_cases h9 : tokStr t = "«"
+    · rw [if_pos h9, if_pos h9]
+      refine .opn _ (fun xs xs' close h => ?_)
+      match xs, xs', h with
+      | [], [], _ => rfl
+      | [], _ :: _, h => exact absurd (listEq_length h) (by simp)
+      | _ :: _, [], h => exact absurd (listEq_length h) (by simp)
+      | a :: args, b :: args', h =>
+        obtain ⟨hab, hr⟩ := listEq_cons_inv h
+        by_cases hs : ∃ n p, a = .sym n p
+        · obtain ⟨n, p, rfl⟩ := hs
+          have : ∃ q, b = .sym n q := by
+            unfold ValEq erasePos at hab
+            cases b <;> simp [mapPos] at hab
+            exact ⟨_, by rw [hab]⟩
+          obtain ⟨q, rfl⟩ := this
+          simp only [henv]
+          split
+          · rfl
+          · have := externCall_eq n hr
+            cases h1 : externCall n args <;> cases h2 : externCall n args' <;>
+              rw [h1, h2] at this <;> first | exact this.elim | exact this
+        · have ha : ∀ n p, a ≠ .sym n p := fun n p e => hs ⟨n, p, e⟩
+          have hb : ∀ n p, b ≠ .sym n p := by
+            intro n p e; subst e
+            unfold ValEq erasePos at hab
+            cases a <;> simp [mapPos] at hab
+            exact ha _ _ (by rw [hab])
+          cases a <;> first | exact absurd rfl (ha _ _) | skip
+          all_goals (cases b <;> first | exact absurd rfl (hb _ _) | rfl)
+    rw [if_neg h9, if_neg h9]
+    by_cases h10 : t.text.head? = some 36
+    · rw [if_pos h10, if_pos h10]
+      refine .leaf ?_
+      rw [hphs]
+      cases cfg'.phs <;> rfl
+    rw [if_neg h10, if_neg h10]
+    exact .leaf (readAtom_eq cfg cfg' t)
+
+/-- outcomes of `readForm` that differ only in cursors: the same unread tokens -/
+def FormEq (r r' : Except RErr (Val × List Token)) : Prop :=
+  ExEq (fun a b => ValEq a.1 b.1 ∧ a.2 = b.2) r r'
+def ListResEq (r r' : Except RErr (List Val × Token × List Token)) : Prop :=
+  ExEq (fun a b => ListEq a.1 b.1 ∧ a.2 = b.2) r r'
+
+theorem reader_module_irrelevant (cfg cfg' : Cfg) (hphs : cfg.phs = cfg'.phs) (henv : cfg.hasEnv = cfg'.hasEnv) :
+    ∀ f, (∀ ts, FormEq (readForm f cfg ts) (readForm f cfg' ts)) ∧
+      (∀ closer ts acc acc', ListEq acc acc' →
+        ListResEq (readList f cfg closer ts acc) (readList f cfg' closer ts acc')) := by
+  intro f
+  induction f with
+  | zero =>
+    exact ⟨fun ts => by rw [readForm_zero, readForm_zero]; rfl,
+      fun closer ts acc acc' _ => by rw [readList_zero, readList_zero]; rfl⟩
+  | succ f ih =>
+    obtain ⟨ihF, ihL⟩ := ih
+    constructor
+    · intro ts
+      cases ts with
+      | nil => rw [readForm_nil, readForm_nil]; rfl
+      | cons t ts' =>
+        rw [readForm_cons, readForm_cons]
+        have hsh := shape_eq cfg cfg' hphs henv t
+        generalize shape cfg t = sh1 at hsh ⊢
+        generalize shape cfg' t = sh2 at hsh ⊢
+        cases hsh with
+        | rmacro name =>
+          simp only []
+          have h1 := ihF ts'
+          cases hr : readForm f cfg ts' <;> cases hr' : readForm f cfg' ts' <;>
+            rw [hr, hr'] at h1 <;> first | exact h1.elim | skip
+          · exact h1
+          · rename_i a b
+            obtain ⟨form, rest⟩ := a
+            obtain ⟨form', rest'⟩ := b
+            obtain ⟨hv, hrest⟩ := h1
+            exact ⟨valEq_list _ _ (listEq_cons (valEq_sym' _ _ _) (listEq_cons hv listEq_nil)), hrest⟩
+        | wmeta =>
+          simp only []
+          have h1 := ihF ts'
+          cases hr : readForm f cfg ts' <;> cases hr' : readForm f cfg' ts' <;>
+            rw [hr, hr'] at h1 <;> first | exact h1.elim | skip
+          · exact h1
+          · rename_i a b
+            obtain ⟨m, rest⟩ := a
+            obtain ⟨m', rest'⟩ := b
+            obtain ⟨hm, hrest⟩ := h1
+            simp only [] at hrest
+            subst hrest
+            simp only []
+            have h2 := ihF rest
+            cases hr2 : readForm f cfg rest <;> cases hr2' : readForm f cfg' rest <;>
+              rw [hr2, hr2'] at h2 <;> first | exact h2.elim | skip
+            · exact h2
+            · rename_i a b
+              obtain ⟨form, rest2⟩ := a
+              obtain ⟨form', rest2'⟩ := b
+              obtain ⟨hv, hrest2⟩ := h2
+              exact ⟨valEq_list _ _ (listEq_cons (valEq_sym' _ _ _) (listEq_cons hv (listEq_cons hm listEq_nil))), hrest2⟩
+        | closer s => rfl
+        | opn c hk =>
+          simp only []
+          have h1 := ihL c ts' [] [] listEq_nil
+          cases hr : readList f cfg c ts' [] <;> cases hr' : readList f cfg' c ts' [] <;>
+            rw [hr, hr'] at h1 <;> first | exact h1.elim | skip
+          · exact h1
+          · rename_i a b
+            obtain ⟨xs, close, rest⟩ := a
+            obtain ⟨xs', close', rest'⟩ := b
+            obtain ⟨hx, hrest⟩ := h1
+            simp only [Prod.mk.injEq] at hrest
+            obtain ⟨rfl, rfl⟩ := hrest
+            simp only []
+            have h2 := hk xs xs' close hx
+            rename_i k k'
+            cases hkk : k xs close <;> cases hkk' : k' xs' close <;>
+              rw [hkk, hkk'] at h2 <;> first | exact h2.elim | skip
+            · exact h2
+            · exact ⟨h2, rfl⟩
+        | leaf hr =>
+          simp only []
+          rename_i r r'
+          cases r <;> cases r' <;> first | exact hr.elim | skip
+          · exact hr
+          · exact ⟨hr, rfl⟩
+    · intro closer ts acc acc' hacc
+      cases ts with
+      | nil => rw [readList_nil, readList_nil]; rfl
+      | cons t ts' =>
+        rw [readList_cons, readList_cons]
+        by_cases hc : tokStr t = closer
+        · rw [if_pos hc, if_pos hc]; exact ⟨listEq_reverse hacc, rfl⟩
+        · rw [if_neg hc, if_neg hc]
+          have h1 := ihF (t :: ts')
+          cases hr : readForm f cfg (t :: ts') <;> cases hr' : readForm f cfg' (t :: ts') <;>
+            rw [hr, hr'] at h1 <;> first | exact h1.elim | skip
+          · exact h1
+          · rename_i a b
+            obtain ⟨v, rest⟩ := a
+            obtain ⟨v', rest'⟩ := b
+            obtain ⟨hv, hrest⟩ := h1
+            simp only [] at hrest
+            subst hrest
+            exact ihL closer rest (v :: acc) (v' :: acc') (listEq_cons hv hacc)
+
+/-- **text read with or without a module name**: `readStr` under two configurations that differ only
+    in the module name fails with the same error or returns ASTs that differ only in cursors -/
+theorem readStr_module_irrelevant (cfg cfg' : Cfg) (hphs : cfg.phs = cfg'.phs) (henv : cfg.hasEnv = cfg'.hasEnv)
+    (bytes : List UInt8) : ExEq ValEq (readStr cfg bytes) (readStr cfg' bytes) := by
+  unfold readStr
+  simp only []
+  have hc : ∀ c : Cfg, (if c.module.isNone then { c with module := modulePrefix bytes } else c).phs = c.phs ∧
+      (if c.module.isNone then { c with module := modulePrefix bytes } else c).hasEnv = c.hasEnv := by
+    intro c; split <;> exact ⟨rfl, rfl⟩
+  have h1 := (hc cfg).1.trans (hphs.trans (hc cfg').1.symm)
+  have h2 := (hc cfg).2.trans (henv.trans (hc cfg').2.symm)
+  generalize (if cfg.module.isNone then { cfg with module := modulePrefix bytes } else cfg) = c1 at h1 h2 ⊢
+  generalize (if cfg'.module.isNone then { cfg' with module := modulePrefix bytes } else cfg') = c2 at h1 h2 ⊢
+  cases tokenize bytes with
+  | error l c => rfl
+  | ok toks =>
+    cases toks with
+    | nil => rfl
+    | cons t ts =>
+      simp only []
+      have h := (reader_module_irrelevant c1 c2 h1 h2 (2 * (t :: ts).length + 2)).1 (t :: ts)
+      cases hr : readForm (2 * (t :: ts).length + 2) c1 (t :: ts) <;>
+        cases hr' : readForm (2 * (t :: ts).length + 2) c2 (t :: ts) <;>
+        rw [hr, hr'] at h <;> first | exact h.elim | skip
+      · exact h
+      · rename_i a b
+        obtain ⟨v, rest⟩ := a
+        obtain ⟨v', rest'⟩ := b
+        obtain ⟨hv, hrest⟩ := h
+        simp only [] at hrest
+        subst hrest
+        cases rest with
+        | nil => exact hv
+        | cons _ _ => rfl
+
+/-- delivery with or without a module name: the two ASTs evaluate to results that differ only in cursors -/
+theorem eval_read_module_irrelevant (cfg cfg' : Cfg) (hphs : cfg.phs = cfg'.phs) (henv : cfg.hasEnv = cfg'.hasEnv)
+    {bytes : List UInt8} {v v' : Val} (h : readStr cfg bytes = .ok v) (h' : readStr cfg' bytes = .ok v')
+    (F : Nat) (st : State) (env d : Nat) : REq (eval F st env v d) (eval F st env v' d) := by
+  have := readStr_module_irrelevant cfg cfg' hphs henv bytes
+  rw [h, h'] at this
+  exact eval_ignores_positions F env d rfl this
+
+/-! ### glue for Props/C17.lean -/
+
+theorem list_rows {cfg : Cfg} {f : Nat} {t : Token} {ts rest : List Token} {v : Val}
+    (ht : tokStr t = "(") (h : readForm f cfg (t :: ts) = .ok (v, rest)) :
+    ∃ xs close pre pos, v = .list xs (some pos) ∧ ts = pre ++ close :: rest ∧ tokStr close = ")" ∧
+      pos.beginRow = t.line ∧ pos.row = close.line ∧ pos.module = cfg.module := by
+  obtain ⟨xs, close, pre, hv, hts, hc, _⟩ := readForm_opn (shape_paren cfg t ht) h
+  exact ⟨xs, close, pre, _, hv, hts, hc, rfl, rfl, rfl⟩
+
+theorem vec_rows {cfg : Cfg} {f : Nat} {t : Token} {ts rest : List Token} {v : Val}
+    (ht : tokStr t = "[") (h : readForm f cfg (t :: ts) = .ok (v, rest)) :
+    ∃ xs close pre pos, v = .vec xs (some pos) ∧ ts = pre ++ close :: rest ∧ tokStr close = "]" ∧
+      pos.beginRow = t.line ∧ pos.row = close.line ∧ pos.module = cfg.module := by
+  obtain ⟨xs, close, pre, hv, hts, hc, _⟩ := readForm_opn (shape_bracket cfg t ht) h
+  exact ⟨xs, close, pre, _, hv, hts, hc, rfl, rfl, rfl⟩
+
+theorem list_children_rows {cfg : Cfg} {f : Nat} {t : Token} {ts rest : List Token} {v : Val}
+    (ht : tokStr t = "(") (hphs : cfg.phs = none) (hmono : LinesMono (t :: ts))
+    (h : readForm f cfg (t :: ts) = .ok (v, rest)) :
+    ∃ xs pos, v = .list xs (some pos) ∧
+      AllPosList (fun p => pos.beginRow ≤ p.beginRow ∧ p.row ≤ pos.row) xs := by
+  obtain ⟨xs, close, pre, hv, _, _, hall⟩ := bracketed_rows (shape_paren cfg t ht) hphs hmono h
+  subst hv
+  exact ⟨xs, _, rfl, hall.2⟩
+
+theorem vec_children_rows {cfg : Cfg} {f : Nat} {t : Token} {ts rest : List Token} {v : Val}
+    (ht : tokStr t = "[") (hphs : cfg.phs = none) (hmono : LinesMono (t :: ts))
+    (h : readForm f cfg (t :: ts) = .ok (v, rest)) :
+    ∃ xs pos, v = .vec xs (some pos) ∧
+      AllPosList (fun p => pos.beginRow ≤ p.beginRow ∧ p.row ≤ pos.row) xs := by
+  obtain ⟨xs, close, pre, hv, _, _, hall⟩ := bracketed_rows (shape_bracket cfg t ht) hphs hmono h
+  subst hv
+  exact ⟨xs, _, rfl, hall.2⟩
+
+theorem eval_error_in_rows {m : String} {lo hi : Int} (F : Nat) {st st' : State} (env : Nat)
+    {ast pl : Val} {q : Pos} (d : Nat) (hst : StAll (InRows m lo hi) st) (hast : AllPos (InRows m lo hi) ast)
+    (h : eval F st env ast d = (.err (.lisp pl (some q)), st')) : InRows m lo hi q := by
+  have := (eval_allPos F env d hst hast).1
+  rw [h] at this
+  exact optAll_some.1 this.2
+
+theorem eval_error_in_form_or_store {m : String} {lo hi : Int} {Q : Pos → Prop} (F : Nat)
+    {st st' : State} (env : Nat) {T pl : Val} {q : Pos} (d : Nat)
+    (hst : StAll Q st) (hT : AllPos (InRows m lo hi) T)
+    (h : eval F st env T d = (.err (.lisp pl (some q)), st')) : InRows m lo hi q ∨ Q q := by
+  have := (eval_allPos (P := fun p => InRows m lo hi p ∨ Q p) F env d
+    (stAll_mono (fun p hp => Or.inr hp) hst) (allPos_mono (fun p hp => Or.inl hp) _ hT)).1
+  rw [h] at this
+  exact optAll_some.1 this.2
+
+theorem gap_shifts_lines {g : List Rune} (hg : Layout.Gap g) :
+    ∃ k, k ≤ g.length ∧ ∀ f post ch p, isWhite ch = true →
+      scan (f + 1 + k) (g ++ post) ch p = scan (f + 1) post (Layout.lastCh ch g) (Layout.feed g p) ∧
+      isWhite (Layout.lastCh ch g) = true ∧ (Layout.feed g p).line = p.line + Layout.newlines g := by
+  obtain ⟨k, hk, h⟩ := Layout.scan_gap hg
+  exact ⟨k, hk, fun f post ch p hch => ⟨(h f post ch p hch).2, (h f post ch p hch).1, Layout.feed_line g p⟩⟩
+
+/-! ### reader and evaluator together -/
+
+mutual
+theorem allPos_and {P Q : Pos → Prop} : ∀ v, AllPos P v → AllPos Q v → AllPos (fun p => P p ∧ Q p) v
+  | .sym _ _, h1, h2 => fun p e => ⟨h1 p e, h2 p e⟩
+  | .list xs _, h1, h2 => ⟨fun p e => ⟨h1.1 p e, h2.1 p e⟩, allPosList_and xs h1.2 h2.2⟩
+  | .vec xs _, h1, h2 => ⟨fun p e => ⟨h1.1 p e, h2.1 p e⟩, allPosList_and xs h1.2 h2.2⟩
+  | .map kvs, h1, h2 => allPosMap_and kvs h1 h2
+  | .fn ps b _ _ _, h1, h2 =>
+    ⟨fun p e => ⟨h1.1 p e, h2.1 p e⟩, allPos_and ps h1.2.1 h2.2.1, allPos_and b h1.2.2 h2.2.2⟩
+  | .nil, _, _ | .bool _, _, _ | .int _, _, _ | .str _, _, _ | .set _, _, _ | .builtin _, _, _ | .atom _, _, _
+  | .future _, _, _ | .goerr _, _, _ | .opaque _, _, _ => trivial
+theorem allPosList_and {P Q : Pos → Prop} :
+    ∀ xs, AllPosList P xs → AllPosList Q xs → AllPosList (fun p => P p ∧ Q p) xs
+  | [], _, _ => trivial
+  | x :: xs, h1, h2 => ⟨allPos_and x h1.1 h2.1, allPosList_and xs h1.2 h2.2⟩
+theorem allPosMap_and {P Q : Pos → Prop} :
+    ∀ m, AllPosMap P m → AllPosMap Q m → AllPosMap (fun p => P p ∧ Q p) m
+  | [], _, _ => trivial
+  | (_, v) :: r, h1, h2 => ⟨allPos_and v h1.1 h2.1, allPosMap_and r h1.2 h2.2⟩
+end
+
+/-- a program read from text under module `m` that fails during evaluation on a store whose cursors (if any)
+    name `m`: the position of the error names `m` -/
+theorem read_eval_error_names_module {cfg : Cfg} {m : String} (hm : cfg.module = some m)
+    (hphs : PhsAll (fun p => p.module = some m) cfg) {bytes : List UInt8} {v : Val}
+    (h : readStr cfg bytes = .ok v) (F : Nat) {st st' : State} (env d : Nat) {pl : Val} {q : Pos}
+    (hst : StAll (fun p => p.module = some m) st)
+    (he : eval F st env v d = (.err (.lisp pl (some q)), st')) : q.module = some m := by
+  have := (eval_allPos F env d hst (readStr_module hm hphs h)).1
+  rw [he] at this
+  exact optAll_some.1 this.2
+
+/-- a bracketed top-level form read under module `m` from monotone tokens, evaluated on a store without
+    cursors: the position of the error names `m` and lies between the line of the opening token and the
+    line of the closing token of that form -/
+theorem read_eval_error_within_form {cfg : Cfg} {m : String} (hm : cfg.module = some m) (hphs : cfg.phs = none)
+    {f : Nat} {t : Token} {ts rest : List Token} {T : Val} (ht : tokStr t = "(")
+    (hmono : LinesMono (t :: ts)) (h : readForm f cfg (t :: ts) = .ok (T, rest))
+    (F : Nat) {st st' : State} (env d : Nat) {pl : Val} {q : Pos}
+    (hst : StAll (fun _ => False) st)
+    (he : eval F st env T d = (.err (.lisp pl (some q)), st')) :
+    ∃ close pre, ts = pre ++ close :: rest ∧ tokStr close = ")" ∧ InRows m t.line close.line q := by
+  obtain ⟨xs, close, pre, hv, hts, hc, hall⟩ := bracketed_rows (shape_paren cfg t ht) hphs hmono h
+  refine ⟨close, pre, hts, hc, ?_⟩
+  have hmod : AllPos (fun p => p.module = some m) T :=
+    readForm_allPos (phsAll_none hphs) (fun _ _ _ _ => hm) h
+  have hT : AllPos (InRows m t.line close.line) T :=
+    allPos_mono (fun p hp => ⟨hp.1, hp.2.1, hp.2.2⟩) _ (allPos_and T hmod hall)
+  rcases eval_error_in_form_or_store F env d hst hT he with hq | hq
+  · exact hq
+  · exact hq.elim
 
 end LispModel.Proofs.Positions
